@@ -16,9 +16,14 @@ ASSUMPTIONS = ['runs that hit bt\'s documented zero-base ZeroDivisionError (valu
 P0 = {'a': 100.0, 'b': 50.0, 'c': 20.0}
 
 
+SYMONLY = [None]
+LATER = {'a': [100.0, 104.0, 97.0, 101.0, 99.0], 'b': [50.0, 48.0, 52.0, 51.0, 49.0], 'c': [20.0, 21.0, 19.0, 22.0, 20.5]}
+
+
 def mkdata(run, cols, nd):
     dts = dates(nd)
-    return dts, frame(run, dts, cols, lambda i, c: P0[c] if i == 0 else run.real('p%d%s' % (i, c), 0.5, 1000))
+    so = SYMONLY[0]
+    return dts, frame(run, dts, cols, lambda i, c: P0[c] if i == 0 else (run.real('p%d%s' % (i, c), 0.5, 1000) if (so is None or c in so) else LATER[c][i]))
 
 
 class SpyBase:
@@ -30,6 +35,7 @@ def h_bankrupt(run, cfg):
     A = B.algos
     nd = cfg.get('ndates', 4)
     shape = cfg['shape']
+    SYMONLY[0] = cfg.get('symonly')
     calls = []
 
     class Spy(B.Algo):
@@ -56,6 +62,15 @@ def h_bankrupt(run, cfg):
         kw['coupons'] = frame(run, dts, ['a'], lambda i, c: run.real('cpn%d' % i, -5, 5))
         kw['cost_long'] = frame(run, dts, ['a'], lambda i, c: 0.125)
         kw['cost_short'] = frame(run, dts, ['a'], lambda i, c: 0.25)
+    elif shape == 'hedge':
+        cols = ['a', 'b']
+        dts, data = mkdata(run, cols, nd)
+        s = B.Strategy('s', [Spy(), A.RunOnce(), A.SelectAll(), A.WeighSpecified(**cfg['w']), A.Rebalance()], [B.core.HedgeSecurity('a'), B.core.Security('b')])
+    elif shape == 'nested_daily':
+        cols = ['a', 'b', 'c']
+        dts, data = mkdata(run, cols, nd)
+        sub = B.Strategy('sub', [A.RunDaily(), A.SelectAll(), A.WeighSpecified(**cfg['wsub']), A.Rebalance()], ['a', 'b'])
+        s = B.Strategy('s', [Spy(), A.RunOnce(), A.WeighSpecified(**cfg['w']), A.Rebalance()], [sub, 'c'])
     elif shape == 'fi':
         cols = ['a', 'b']
         dts, data = mkdata(run, cols, nd)
@@ -64,7 +79,8 @@ def h_bankrupt(run, cfg):
         kw['notl'] = pd.Series([1000.0] * nd, index=dts)
     else:
         raise ValueError(shape)
-    t = B.Backtest(s, data, initial_capital=100000.0, integer_positions=bool(cfg.get('int', 0)), additional_data=kw or None)
+    t = B.Backtest(s, data, initial_capital=100000.0, integer_positions=bool(cfg.get('int', 0)), additional_data=kw or None,
+                   commissions=(lambda q, p: 0.5) if cfg.get('flatfee') else None)
     real['root'] = t.strategy
     try:
         t.run()
@@ -158,6 +174,10 @@ def plan(tier):
     for w in [dict(a=2.0, b=-1.5), dict(a=-1.5, b=1.0)]:
         tasks.append(dict(harness='bankrupt', cfg=dict(shape='coupon', w=w, ndates=nd), opts=opts))
     tasks.append(dict(harness='bankrupt', cfg=dict(shape='fi', w=dict(a=2.0, b=-1.5), ndates=nd), opts=opts))
+    for w in (dict(a=-1.5, b=2.0), dict(a=2.0, b=-1.5)):
+        tasks.append(dict(harness='bankrupt', cfg=dict(shape='hedge', w=w, ndates=nd), opts=opts))
+    tasks.append(dict(harness='bankrupt', cfg=dict(shape='nested_daily', w=dict(sub=1.5, c=-1.0), wsub=dict(a=0.75, b=0.25), ndates=nd, flatfee=1, symonly='c'), opts=opts))
+    tasks.append(dict(harness='bankrupt', cfg=dict(shape='nested_daily', w=dict(sub=0.5, c=-1.25), wsub=dict(a=0.5, b=0.5), ndates=nd, flatfee=0, symonly='c'), opts=opts))
     if not quick:
         tasks.append(dict(harness='bankrupt', cfg=dict(shape='flat', w=dict(a=2.0, b=-1.5), ndates=4, int=1), opts=opts))
     return tasks
